@@ -119,7 +119,7 @@ def generate(seed, tier):
             else:
                 ops.append(_gen_op(rng, ds))
         cases.append({'kind': 'seq', 'ds': ds, 'nres': rng.choice([0, 1, 2]), 'mode': mode, 'flag0': rng.random() < 0.5,
-                      'ops': ops})
+                      'legacy': rng.random() < 0.4, 'ops': ops})
     j = 0
     for rep in range(n_write):
         for w in WRITE_OPS:
@@ -142,7 +142,8 @@ def _make_file(inp, path):
         g.create_dataset('plain_same', data=np.zeros((n, m)))
         for k in range(inp['nres']):
             rg = g.create_group('main-Fit_%03d' % k)
-            rg.attrs['tool'] = 'Fit'
+            if not (inp.get('legacy') and k == inp['nres'] - 1):      # a legacy group carries no 'tool' attribute
+                rg.attrs['tool'] = 'Fit'
             rg.attrs['machine_id'] = 'verif'
             rg.attrs['timestamp'] = 'none'
             rg.attrs['source_000'] = main.ref
